@@ -6,6 +6,7 @@ import (
 	"net"
 	"reflect"
 	"sync"
+	"sync/atomic"
 	"testing/synctest"
 	"time"
 	"unsafe"
@@ -211,6 +212,7 @@ type World struct {
 	srv              *turn.Server
 	srvSock          *sim.UDPSock
 	splitNext        int // the next stream write goes out in two segments, cut here
+	authEvents       atomic.Int64
 	srvAddr          *net.UDPAddr
 	tcpLis           *sim.Listener
 	gen              *simGen
@@ -377,6 +379,9 @@ func NewWorld(cfg Config, verbose bool) (*World, error) {
 			OnChannelDeleted: func(src, dst net.Addr, proto, user, realm string, relay, peer net.Addr, ch uint16) {
 				w.event(Event{Kind: "ChanDeleted", Src: addrStr(src), Relay: addrStr(relay), Peer: addrStr(peer), Channel: ch, User: user})
 			},
+			// (an operator who wants an audit trail sets this one too; its calls are only counted -
+			// they are not part of the lifecycle bookkeeping)
+			OnAuth: func(_, _ net.Addr, _, _, _, _ string, _ bool) { w.authEvents.Add(1) },
 		},
 	}
 	if !cfg.NoAuth {
